@@ -62,7 +62,7 @@ def check(ctx):
                                        "content_hex": content, "impl": out, "impl_expr_hex": expr,
                                        "model": m, "reference": ref,
                                        "theorem": "Goag.Embed.embed_roundtrip",
-                                       "how": "write content to a spec file, run goag, read const SpecFile from spec_file.go"})
+                                       "how": "write content to a spec file, run goag, read const SpecFile from spec_file.go; direct cases (Generate with a fixed parsed spec) whose id ends in an even digit are generated into a directory that already holds the output of a run on the white-space variant of the content (blanks -> tabs, every newline doubled, one newline appended)"})
             elif not okmodel:
                 ctx.broken.append({"kind": "correspondence", "detail": "model and implementation differ on %s (%s): impl=%s/%s model=%s" % (cid, kind, expr[:80], out[:80], m)})
         stats["distinct_nontrivial"] = len(distinct)
